@@ -18,6 +18,7 @@ type trLoopCtx struct {
 	brk    trK
 	cont   trK
 	flow   bool // the loop body contains a return: results are Flow values
+	wrapOk bool // rangerec: results are in the Outcome monad
 	outer  *trLoopCtx
 }
 
@@ -329,6 +330,9 @@ func (c *trCtx) retRaw(v string, pos token.Pos) trLines {
 	if c.loop != nil {
 		if c.loop.kind == "range" {
 			trFail(pos, "return inside a range loop is outside the subset")
+		}
+		if c.loop.kind == "rangerec" && !c.loop.wrapOk {
+			return trOne("(Flow.ret " + v + ")")
 		}
 		return trOne("Outcome.ok (Flow.ret " + v + ")")
 	}
